@@ -65,6 +65,9 @@ type Obligation struct {
 	Res   SolveResult
 	Query string
 	Known bool
+	// replay: for postconditions of free functions over scalars, what is needed to run a solver
+	// model on the real code
+	replay *replaySpec
 }
 
 func newCtx(v *Verifier) *Ctx {
